@@ -16,7 +16,7 @@ ANCHORS = ["pyoma2.functions.ssi:SSI_multi_setup", "pyoma2.functions.gen:pre_mul
 REQUIRED_MONITORS = ["shared-object history", "truth@PreGER.cov_mm", "truth@PreGER.dat", "truth@SSI_multi_setup", "gain-metamorphic", "split@pre_multisetup(direct)",
                      "split@pre_multisetup(every call made by MultiSetup_PreGER)"]
 ALL_STATES = ["refs listed out of order", "refs differ between setups", "complex shapes", "real shapes", "br=nu+1", "br>nu+1"]
-REQUIRED_STATES = ["refs listed out of order", "refs differ between setups", "br=nu+1", "equal record lengths, different channel counts"]
+REQUIRED_STATES = ["refs listed out of order", "refs differ between setups", "br=nu+1", "equal record lengths, different channel counts", "a later setup repeats the first setup's reference records"]
 RULE = ("A: random global systems (1..5 modes), 2..4 setups, 1..3 references anywhere/any order, 1..4 roving, gains 10^U(-2,2), own record "
         "length and initial condition per setup, br >= nu_ref+1, both methods, through MultiSetup_PreGER+SSIcov_MS/SSIdat_MS and "
         "ssi.SSI_multi_setup; non-trivial = guards hold and >= 2 setups with different gains; B: EVERY channel count 2..6 and EVERY ordered "
@@ -78,6 +78,12 @@ def run_identify(ctx, rng):
     gains = [float(10 ** rng.uniform(-2, 2)) for _ in range(nset)]
     Ns = [max(int(rng.integers(600, 2500)), 2 * br + 2 + (br + 1) * (nref + max(nrov) + nref) + 50) for _ in range(nset)]
     q0s = [rng.uniform(0.5, 2, m) * np.exp(1j * rng.uniform(0, 2 * np.pi, m)) for _ in range(nset)]
+    if nset >= 2 and rng.random() < 0.25:
+        # a repeated test: a later setup released from the same initial condition with the same gain and length as the first one - the
+        # reference channels of both carry the same record, the roving ones do not
+        k = int(rng.integers(1, nset))
+        gains[k], q0s[k], Ns[k] = gains[0], q0s[0], Ns[0]
+        ctx.state("a later setup repeats the first setup's reference records")
     datasets = make_data(rng, Phi, lam, fs, chan_glob, gains, Ns, q0s)
     rows = c02.expected_rows(nref, chan_glob, reflist)
     PhiG = Phi[rows]
